@@ -97,20 +97,20 @@ theorem sendDirect_stream (c : Conn) (data : Bytes) (r : WriteRes)
       have : data = [] := List.eq_nil_of_length_eq_zero (by omega)
       subst this; simpa using h hd
 
-theorem accept_emit_same_shape (c : Conn) (data : Bytes) (e : Ev) :
-    let c' := emit (popWrite (accept c data)) e
+theorem accept_emit_same_shape (c : Conn) (data : Bytes) (q : Bool) (e : Ev) :
+    let c' := emit (popWrite (accept c data q)) e
     c'.wrote = c.wrote ∧ c'.outBuf = c.outBuf ∧ c'.accepted = c.accepted ++ data ∧ c'.discarded = c.discarded := by
   simp only [emit]
   unfold popWrite accept
   split <;> simp
 
-theorem sendInLoop_stream (c : Conn) (data : Bytes) (h : StreamInv c) : StreamInv (sendInLoop c data) := by
+theorem sendInLoop_stream (c : Conn) (data : Bytes) (q : Bool) (h : StreamInv c) : StreamInv (sendInLoop c data q) := by
   unfold sendInLoop
   split
   · exact StreamInv.of_same (emit_same _ _) h
   · split
     · rename_i hd
-      obtain ⟨s1, s2, s3, s4⟩ := accept_emit_same_shape c data (.sysWrite data.length (peekWrite c))
+      obtain ⟨s1, s2, s3, s4⟩ := accept_emit_same_shape c data q (.sysWrite data.length (peekWrite c))
       have ho : c.outBuf = [] := by
         simp only [directWrite] at hd; exact List.eq_nil_of_length_eq_zero hd.2
       apply sendDirect_stream
@@ -175,8 +175,9 @@ theorem act_stream (c : Conn) (f : Bool) (a : Act) (h : StreamInv c) : StreamInv
   | send d =>
     simp only [act]; split
     · split
-      · exact StreamInv.of_same (enqueue_same _ _) h
-      · exact sendInLoop_stream _ _ h
+      · exact StreamInv.of_same (same_trans (c := enqueue { c with offeredF := c.offeredF ++ [d] } (.sendInLoop d))
+          (b := { c with offeredF := c.offeredF ++ [d] }) ⟨rfl, rfl, rfl, rfl⟩ (enqueue_same _ _)) h
+      · exact sendInLoop_stream _ _ _ (StreamInv.of_same (c := c) ⟨rfl, rfl, rfl, rfl⟩ h)
     · exact h
   | shutdown =>
     simp only [act]; split
@@ -271,7 +272,7 @@ theorem runTask_stream (c : Conn) (t : Task) (h : StreamInv c) : StreamInv (runT
     · exact StreamInv.of_same ⟨rfl, rfl, rfl, rfl⟩ h
     · exact StreamInv.of_same (same_trans ⟨rfl, rfl, rfl, rfl⟩ (emit_same _ _)) h
   · cases t with
-    | sendInLoop d => exact sendInLoop_stream _ _ h
+    | sendInLoop d => exact sendInLoop_stream _ _ _ h
     | shutdownInLoop => exact StreamInv.of_same (shutdownInLoop_same _) h
     | drainShutdownInLoop => exact StreamInv.of_same (shutdownInLoop_same _) h
     | forceCloseInLoop => simp only; split; exact handleClose_stream _ h; exact h
